@@ -441,7 +441,19 @@ func CheckC17(c *Ctx) int {
 					case <-time.After(20 * time.Second):
 					}
 				}
-				evs = append(evs, Ev{"ev": "LWaiter", "holder": modes[0], "waiter": modes[1], "blockedWhileHeld": blocked, "acquiredAfterClose": acquired})
+				evs = append(evs, Ev{"ev": "LReset", "program": -1})
+				evs = append(evs, Ev{"ev": "LWaiter", "a": 2, "holder": modes[0], "waiter": modes[1], "blockedWhileHeld": blocked, "acquiredAfterClose": acquired})
+				if acquired {
+					// the open that had to wait now holds the lock in the mode it asked for - not a stronger one: a
+					// read-only open by someone else must coexist with a read-only waiter and time out against a read-write one
+					res, ms := p1.open("ro", 250, path)
+					evs = append(evs, Ev{"ev": "LOpen", "a": 1, "mode": "ro", "timeoutMs": 250, "res": res, "ms": ms, "expected": ""})
+					if res == "ok" {
+						evs = append(evs, Ev{"ev": "LClose", "a": 1, "res": p1.close()})
+					}
+					evs = append(evs, Ev{"ev": "LClose", "a": 2, "res": w.close()})
+					steps += 2
+				}
 				w.quit()
 				p1.quit()
 				steps++
